@@ -229,9 +229,12 @@ PROPS = {
         rule='3 stream kinds x client programs (send-all, ping-pong, concurrent, early half-close) x handler programs '
              '(echo, burst, reply-after-EOF) x message counts, multiplexed streams, and the done-check/select window '
              'forced through the cs.recv.window gate; distinct = distinct step list; non-trivial = opens a stream',
-        nontrivial_ops=['sopen'],
-        assumptions=COMMON_ASSUMPTIONS,
+        nontrivial_ops=['sopen', 'storm'],
+        assumptions=COMMON_ASSUMPTIONS + ['in the storm part (waves of 64 calls released simultaneously, a third of them bidirectional echo streams '
+                                          'of 1-3 distinct messages) the driver compares each reply with the message it answers and reports a '
+                                          'mismatch as an event the specification has no action for'],
         models=[],
+        parts=[dict(gen=None, trace_spec='GoatTrace.tla'), dict(gen='c02_storm', trace_spec='GoatRegistryTrace.tla', shard_size=1)],
     ),
 }
 
